@@ -11,6 +11,7 @@ import Pastel.Model.Scale
 import Pastel.Model.Ansi
 import Pastel.Model.Format
 import Pastel.Model.Parser
+import Pastel.Model.Cli
 
 namespace Pastel
 open Wire
@@ -385,8 +386,64 @@ def opParse (args : List String) : String :=
     | none => bad
   | _ => bad
 
+def parseItems : Nat → Nat → List String → Option (List SortItem)
+  | 0, _, [] => some []
+  | n + 1, i, p :: k :: rest => do
+    let p ← p.toNat?
+    let k ← k.toInt?
+    let items ← parseItems n (i + 1) rest
+    pure ({ tag := i, packed := p, key := k } :: items)
+  | _, _, _ => none
+
+/-- `sort <unique> <reverse> n (packed key)*` / `list n (packed key)*` -/
+def opSort (args : List String) : String :=
+  match args with
+  | u :: r :: n :: rest =>
+    match n.toNat? with
+    | some n =>
+      match parseItems n 0 rest with
+      | some items => "ok " ++ " ".intercalate ((sortCmd (u = "1") (r = "1") items).map (toString ·.tag))
+      | none => bad
+    | none => bad
+  | _ => bad
+
+def opList (args : List String) : String :=
+  match args with
+  | n :: rest =>
+    match n.toNat? with
+    | some n =>
+      match parseItems n 0 rest with
+      | some items => "ok " ++ " ".intercalate ((listCmd items).map (toString ·.tag))
+      | none => bad
+    | none => bad
+  | _ => bad
+
+def opName (args : List String) : String :=
+  match parseC args with
+  | some (c, []) => "ok " ++ showStr (nearestName cssNamed c)
+  | _ => bad
+
+def opRand (args : List String) : String :=
+  match args with
+  | strat :: nd :: rest =>
+    match nd.toNat? with
+    | some nd =>
+      let d : Draws := { rest := (rest.take nd).filterMap String.toNat? }
+      match strat with
+      | "vivid" => "ok " ++ showC (randVivid (α := Float) d).1
+      | "rgb" => "ok " ++ showC (randRgb (α := Float) d).1
+      | "gray" => "ok " ++ showC (randGray (α := Float) d).1
+      | "lch_hue" => "ok " ++ showC (randLchHue (α := Float) d).1
+      | _ => bad
+    | none => bad
+  | _ => bad
+
 def runOp (st : OpState) (toks : List String) : OpState × String :=
   match toks with
+  | "sort" :: args => (st, opSort args)
+  | "list" :: args => (st, opList args)
+  | "name" :: args => (st, opName args)
+  | "rand" :: args => (st, opRand args)
   | "parse" :: args => (st, opParse args)
   | "fmt" :: args => (st, opFmt args)
   | "ansi" :: args => (st, opAnsi args)
